@@ -115,7 +115,10 @@ NAMES = ["a", "b c", ".h"]
 SIZES = [0, 1, 8191, 8192, 2 ** 31, 2 ** 40]
 EPOCH = 1709217420.0          # 2024-02-29 14:37:00 UTC  (listing time of the wire cases)
 MTIMES = [EPOCH, EPOCH - 59, EPOCH - 3600 * 5, EPOCH - HALF + 3 * DAY, EPOCH - HALF - 3 * DAY, EPOCH - 366 * DAY,
-          EPOCH + 2 * DAY, 951782400.0, 0.0 + 86400 * 365]
+          EPOCH + 2 * DAY, 951782400.0, 0.0 + 86400 * 365,
+          # fractional seconds (a file system with sub-second timestamps): the second is the one the instant lies in,
+          # also within half a microsecond of the next one
+          EPOCH - 3600 - 2 ** -21, 1704067200.0 - 2 ** -21, EPOCH - 86400 * 30 + 0.5, EPOCH - 120 + 59.999]
 
 
 def wire_case(item):
